@@ -24,7 +24,8 @@ class C05(CollProperty):
             "modified items, canonical delta), by a consumer below a capture/apply mirror, and by a lazy consumer that reads only every 2nd/3rd tick. "
             "Oracle: value_t = value_(t-1) + delta_t from empty; added and removed disjoint; added present afterwards; removed absent afterwards and "
             "present before; nothing added that was already present; value equals the Python container model; a tick-count window holds exactly the "
-            "last N pushes and is valid iff its minimum count is reached. non-trivial = >= 3 ticks checked; distinct = distinct (shapes, scripts)")
+            "last N pushes and is valid iff its minimum count is reached. non-trivial = >= 3 ticks checked; distinct = distinct (shapes, scripts)"
+            " Round 3: 20% of the runs are stdlib::to_window graphs (duration and tick-count windows, resettable, sparse/dense push phases) checked against a reference model of contents, element times, validity and removed_value.")
     assumptions = ["a TSD entry whose child never became valid is not a published entry (linking_strategies.rst) and is ignored on both sides"]
 
     def gen(self, seed):
